@@ -343,3 +343,26 @@ def fam_wal(tier, base):
 prop("C16", "wal", "TLC-generated histories of log/commit/reopen/recover over 2-3 event types and scripted handler answers (ok, handle error, check error, not-needed, decode error, unknown type), random longer ones with 4 concurrent loggers; after every operation the real key set is read from a copy of the bbolt file; non-trivial = a recovery ran",
      ["a restart is Hydro.Close + NewHydro on the same file (same process); commit handles obtained before a restart are not used afterwards",
       "event ids are observed by copying the bbolt file and scanning the copy with kv.Lithium (no hook)"])
+
+
+# =========================================================================== Engine: C31
+@family("engine")
+def fam_engine(tier, base):
+    r = verif.model_check("MC_Engine", "MC_Engine.cfg")
+    inputs, trace = base + ".in.ndjson", base + ".trace.ndjson"
+    n = verif.emit_inputs(r, inputs)
+    b = verif.build_driver("pure")
+    nrand = 2000 if tier == "quick" else 100000
+    verif.run_driver(b, "TestEngineReplay", env={"VERIF_INPUTS": inputs, "VERIF_TRACE": trace, "VERIF_RANDOM": nrand})
+    os.remove(inputs)
+    viols, tr = verif.validate_trace("Trace_Engine", "Trace_Engine.cfg", trace)
+    lines = verif.read_lines(trace)
+    bound = sum(1 for ln in lines if '"remap":false' in ln and 'true' in ln.split('"cores":[')[1].split(']')[0])
+    return dict(trace=trace, viols=viols, states=r.distinct, transitions=r.generated, configs=["MC_Engine.cfg", "Trace_Engine.cfg"],
+                traces={"*": len(lines)}, samples={"*": verif.samples_from(lines, 3)}, nontrivial={"C31": bound},
+                notes="%d TLC-enumerated parameter sets (create and update) + %d random ones sent through the real docker engine client to a fake Docker daemon (HTTP) that records HostConfig / update resources" % (n, nrand))
+
+
+prop("C31", "engine", "engine parameter sets of the shapes the cpumem plugin produces (bound, unbound, remapped; CPU limits 0..4 in 0.01 steps incl. 0.29/0.57/1.15; NUMA node or none; memory 0 / 4 MiB / 512 MiB) for both create and update; non-trivial = bound parameter set",
+     ["the real engine/docker client (MakeClient) talks HTTP to an in-process fake Docker daemon that implements _ping, info, containers/create and containers/{id}/update and records the resource settings; node has 3 CPUs",
+      "which cores an unbound workload may use is decided by the resource plugin (C32) and not judged here"])
